@@ -477,21 +477,78 @@ type opaqueReader struct{ r *bytes.Reader }
 
 func (o *opaqueReader) Read(p []byte) (int, error) { return o.r.Read(p) }
 
+// ReadStep is one answer of a body source (spec/Stream.tla): hand over N units, announce the end or not.
+type ReadStep struct {
+	N   int  `json:"n"`
+	End bool `json:"end"`
+}
+
+// ReadPlan is a complete behaviour of a body source over a body of Units units (emitted by MC_Stream).
+type ReadPlan struct {
+	Units int        `json:"units"`
+	Reads []ReadStep `json:"reads"`
+}
+
 // netBody behaves like a body that arrives over a connection (http.Response.Body from a transport, http.Request.Body
-// in a server): Read hands out what has arrived so far - here short pieces of changing length, which the io.Reader
-// contract allows at any time - and fails once the body was closed, as net/http's bodies do.
+// in a server): Read hands out what has arrived so far and fails once the body was closed, as net/http's bodies do.
+// With a plan the answers are those of one behaviour of Stream.tla's source, scaled to the length of the body;
+// without one they are short pieces of changing length, which the io.Reader contract allows at any time.
 type netBody struct {
 	r      *bytes.Reader
 	n      int
 	closed bool
 	what   string
+	plan   []ReadStep
+	unit   int
+	left   int // bytes of the current step not handed over yet (-1: step not started)
 }
 
-func newNetBody(bs []byte, what string) *netBody { return &netBody{r: bytes.NewReader(bs), what: what} }
+func newNetBody(bs []byte, what string) *netBody {
+	return &netBody{r: bytes.NewReader(bs), what: what, left: -1}
+}
+
+func newPlannedBody(bs []byte, what string, p *ReadPlan) *netBody {
+	b := newNetBody(bs, what)
+	if p != nil && p.Units > 0 && len(p.Reads) > 0 {
+		b.plan = append([]ReadStep{}, p.Reads...)
+		b.unit = (len(bs) + p.Units - 1) / p.Units
+	}
+	return b
+}
 
 func (b *netBody) Read(p []byte) (int, error) {
 	if b.closed {
 		return 0, fmt.Errorf("http: read on closed %s body", b.what)
+	}
+	if len(p) == 0 {
+		return 0, nil
+	}
+	if len(b.plan) > 0 {
+		st := b.plan[0]
+		if b.left < 0 {
+			b.left = st.N * b.unit
+			if st.End || b.left > b.r.Len() {
+				b.left = b.r.Len() // the end is announced with (or after) the last unit
+			}
+		}
+		n := b.left
+		if n > len(p) {
+			// the consumer offers less room than the step hands over: the rest of the step stays for the next Read
+			n = len(p)
+		}
+		got, _ := b.r.Read(p[:n])
+		b.left -= got
+		if b.left > 0 {
+			return got, nil
+		}
+		b.plan, b.left = b.plan[1:], -1
+		if st.End {
+			b.plan = nil
+			if b.r.Len() == 0 {
+				return got, io.EOF
+			}
+		}
+		return got, nil
 	}
 	b.n++
 	max := 1 + (b.n*37)%509
